@@ -1,6 +1,8 @@
 package actionlint
 
 import (
+	"bytes"
+	"encoding/json"
 	"fmt"
 	"sort"
 	"strconv"
@@ -442,6 +444,70 @@ func (ty *ArrayType) DeepCopy() ExprType {
 // EqualTypes returns if the two types are equal.
 func EqualTypes(l, r ExprType) bool {
 	return l.Assignable(r) && r.Assignable(l)
+}
+
+// typeOfJSONText returns the type of the value which the given JSON text represents. Members of an
+// object are read in the order they are written. Property names are case insensitive, so a key which
+// is equal to an earlier key ignoring case replaces it as a key which is exactly equal does.
+func typeOfJSONText(src []byte) (ExprType, error) {
+	if !json.Valid(src) {
+		var v any
+		return nil, json.Unmarshal(src, &v) // For the error message
+	}
+	return typeOfNextJSONValue(json.NewDecoder(bytes.NewReader(src)))
+}
+
+func typeOfNextJSONValue(dec *json.Decoder) (ExprType, error) {
+	tok, err := dec.Token()
+	if err != nil {
+		return nil, err
+	}
+	switch tok := tok.(type) {
+	case json.Delim:
+		if tok == '[' {
+			var elem ExprType
+			for dec.More() {
+				t, err := typeOfNextJSONValue(dec)
+				if err != nil {
+					return nil, err
+				}
+				if elem == nil {
+					elem = t
+				} else {
+					elem = elem.Merge(t)
+				}
+			}
+			if elem == nil {
+				elem = AnyType{}
+			}
+			_, err := dec.Token() // ]
+			return &ArrayType{Elem: elem}, err
+		}
+		props := map[string]ExprType{}
+		for dec.More() {
+			k, err := dec.Token()
+			if err != nil {
+				return nil, err
+			}
+			t, err := typeOfNextJSONValue(dec)
+			if err != nil {
+				return nil, err
+			}
+			if k, ok := k.(string); ok {
+				props[strings.ToLower(k)] = t // Property names are looked up in lower case
+			}
+		}
+		_, err := dec.Token() // }
+		return NewStrictObjectType(props), err
+	case bool:
+		return BoolType{}, nil
+	case float64:
+		return NumberType{}, nil
+	case string:
+		return StringType{}, nil
+	default:
+		return NullType{}, nil
+	}
 }
 
 // typeOfJSONValue returns the type of the given JSON value. The JSON value is an any value decoded by json.Unmarshal.
